@@ -16,6 +16,8 @@
 //   evpush <n> <len>                 n x event_logger::write_event(message of <len> bytes)
 //   evtick                           advance the paused clock by the interval, poll the loop once
 //                                    -> listing of the event directory with the number of events per file
+//   evstop                           event_logger::stop()  (process-global: the history must be the last
+//                                    event history of this process)
 //   evreset                          what a process restart does to the queue: drain it (into a
 //                                    throw-away directory), keep the event directory
 use proxy_agent_shared::logger::rolling_logger::RollingLogger;
@@ -214,8 +216,19 @@ fn main() {
                     serde_json::json!("ok")
                 }
                 "evtick" => {
-                    let done = tick(ev.as_mut().unwrap()).await;
+                    // a finished loop (stop seen) must not be polled again
+                    let done = match ev.as_mut() {
+                        Some(f) => tick(f).await,
+                        None => true,
+                    };
+                    if done {
+                        ev = None;
+                    }
                     serde_json::json!({"r": if done {"finished"} else {"ok"}, "ls": ev_listing(&ev_dir)})
+                }
+                "evstop" => {
+                    event_logger::stop();
+                    serde_json::json!("ok")
                 }
                 "evreset" => {
                     // a new process starts with an empty queue: drain the process-global queue
